@@ -20,9 +20,11 @@ From Coq Require Import String.
      error_occurred, and the interpreter recursion limit (sys.setrecursionlimit).
 
    The `shape` record makes the structural facts that Gen/Facts_C13.v extracts from the source (components
-   of the cache key, which containers snapshot/restore copy, which globals are reset where, whether the
-   recursion limit is restored) parameters of the model: `code_shape` is the current tree, and
+   of the cache key, which containers snapshot/restore copy, which globals are reset where, whether assemble
+   puts the recursion limit back) parameters of the model: `code_shape` is the current tree, and
    Tie/C13_tie.v proves by reflexivity that the shape computed from the regenerated facts is `code_shape`.
+   (Until commit fe7c037 the limit was not restored - finding F13; that shape is `Variants.limit_not_restored`
+   in Proofs/AsmCacheProps.v, where it is refuted.)
    No proofs in this file. *)
 Local Open Scope Z_scope.
 Local Open Scope string_scope.
@@ -35,12 +37,9 @@ Record shape := mkshape {
   limit_scoped : bool     (* the limit found at entry is put back when assemble returns or raises *)
 }.
 
-(* the tree as it is: the key has every component, every container is copied, every global is reset,
-   and sys.setrecursionlimit is never undone (finding F13) *)
+(* the tree as it is: the key has every component, every container is copied, every global is reset, and
+   assemble restores, in a `finally`, the recursion limit it found at entry *)
 Definition code_shape : shape :=
-  mkshape true true true true true true  true true true  true true true  true true true  false.
-(* the same with the limit restored by assemble (the proposed fix of F13) *)
-Definition fixed_shape : shape :=
   mkshape true true true true true true  true true true  true true true  true true true  true.
 
 (* every structural flag as in the tree; only the treatment of the recursion limit is left open *)
@@ -82,6 +81,11 @@ Section Model.
   (* opaque data *)
   Variables text diag consts macros mainops opts output : Type.
 
+  Inductive read_result :=
+  | ReadOk (t : text)
+  | ReadNotUtf8                    (* UnicodeDecodeError: turned into a FlipJumpParsingException *)
+  | ReadRaises (d : diag).         (* any other exception of open/read (OSError): escapes as it is *)
+
   (* one entry of input_files as the code sees it at the time of the call *)
   Record file := mkfile {
     f_short : string;              (* short_file_name *)
@@ -91,7 +95,7 @@ Section Model.
     f_in_stl : bool;               (* resolve() succeeded and is_relative_to(_STL_DIR) *)
     f_isfile : bool;               (* os.path.isfile *)
     f_stat : option (Z * Z);       (* (st_mtime_ns, st_size); None when stat() raises OSError *)
-    f_text : text + diag           (* open(...).read(); inr = the exception it raises (OSError, UnicodeDecodeError) *)
+    f_text : read_result           (* curr_file.open('r', encoding='utf-8').read() *)
   }.
 
   (* parser.consts, parser.macros (without the op list of the main macro), parser.macros[''].ops *)
@@ -121,6 +125,7 @@ Section Model.
   | E_no_such_file (p : string)
   | E_short_repeated (s : string)
   | E_path_repeated (p : string)
+  | E_not_utf8 (p : string)
   | E_parse (file : option (string * string)) (errs : list diag)   (* exit_if_errors: curr_file, all_errors *)
   | E_raw (d : diag)                  (* non-library exception -> assemble's catch-all *)
   | E_backend (d : diag).
@@ -223,8 +228,9 @@ Section Model.
   Definition lex_parse_curr_file (sh : shape) (werror : bool) (g : gstate) (ps : pstate) (f : file)
     : gstate * pstate * option err :=
     match f_text f with
-    | inr d => (g, ps, Some (E_raw d))                       (* open/read raises before any global is written *)
-    | inl t =>
+    | ReadRaises d => (g, ps, Some (E_raw d))                (* open/read raises before any global is written *)
+    | ReadNotUtf8 => (g, ps, Some (E_not_utf8 (f_path f)))   (* likewise *)
+    | ReadOk t =>
       let g1 := with_text g (Some t) in
       let g1 := if reset_ns_per_file sh then with_ns g1 [] else g1 in
       (* lexer.tokenize is lazy: nothing is lexed yet *)
@@ -337,25 +343,28 @@ Section Model.
 
   (* ---- assembler.assemble ---- *)
   Definition assemble_step (sh : shape) (g : gstate) (rq : request) : gstate * result :=
-    let entry_limit := g_limit g in
+    let entry_limit := g_limit g in            (* recursion_limit_before = sys.getrecursionlimit() *)
     let '(g, r) :=
       match parse_macro_tree sh g rq with
       | (g, inr e) => (g, R_err e)
       | (g, inl ps) =>
         (* resolve_macros -> PreprocessorData.__init__ : sys.setrecursionlimit(max_recursion_depth + GAP) *)
+        (* (in force for expansion, label resolution and writing; undone by the `finally` below) *)
         let g := with_limit g (rq_depth rq + GAP) in
         (g, match backend (g_limit g) (rq_width rq) (rq_depth rq) (rq_opts rq) ps with
             | inl o => R_ok o
             | inr d => R_err (E_backend d)
             end)
       end in
+    (* finally: sys.setrecursionlimit(recursion_limit_before) - on success and on every failure *)
     (if limit_scoped sh then with_limit g entry_limit else g, r).
 
   (* a process: the calls it has made so far *)
   Definition run_history (sh : shape) (g : gstate) (h : list request) : gstate :=
     fold_left (fun g rq => fst (assemble_step sh g rq)) h g.
 
-  (* the guard of the current tree: the limit a fresh process starts with is in force again after every call *)
+  (* used by the proofs (and by the refuted variant without the restore): the limit a fresh process starts
+     with is in force again after every call *)
   Fixpoint limits_ok (sh : shape) (L : Z) (g : gstate) (h : list request) : bool :=
     match h with
     | [] => true
@@ -409,6 +418,10 @@ Arguments E_empty_files {diag}.
 Arguments E_no_such_file {diag} p.
 Arguments E_short_repeated {diag} s.
 Arguments E_path_repeated {diag} p.
+Arguments E_not_utf8 {diag} p.
+Arguments ReadNotUtf8 {text diag}.
+Arguments ReadOk {text diag} t.
+Arguments ReadRaises {text diag} d.
 Arguments R_ok {diag output} o.
 Arguments R_err {diag output} e.
 
@@ -449,29 +462,37 @@ Module Replay.
     if bo_fail o then inr (Tok "backend" [] limit false (bo_tag o))
     else inl (limit, width, depth, bo_tag o, ps_consts ps, ps_macros ps, ps_main ps).
 
+  (* validate_no_label_const_collisions: the campaign marks a file whose labels collide with constants by a
+     negative content id *)
+  Definition r_final_validate (ps : pstate toks toks toks) : list token :=
+    filter (fun t => match t with Tok _ _ _ _ c => Z.ltb c 0 end) (ps_macros ps).
+
   Definition rfile := file text token.
   Definition rrequest := request text token bopts.
   Definition rgstate := gstate text token toks toks toks.
   Definition rresult := result token routput.
 
   Definition step (sh : shape) (g : rgstate) (rq : rrequest) : rgstate * rresult :=
-    assemble_step r_init_consts r_init_macros [] r_parse_file (fun _ => []) r_backend sh g rq.
+    assemble_step r_init_consts r_init_macros [] r_parse_file r_final_validate r_backend sh g rq.
   Definition g0 : rgstate := init_g FRESH_LIMIT.
 
   (* what the campaign observes of the real process after each call *)
   Record observed := mkobs {
     o_ok : bool;                               (* the call returned normally *)
     o_class : Z;                               (* 0 ok, 1 empty list, 2 no such file, 3 short name repeated, 4 path repeated,
-                                                  5 parsing errors, 6 non-library exception, 7 later stage failed *)
+                                                  5 parsing errors, 6 another exception from the parse stage,
+                                                  7 a later stage failed, 8 a file is not utf-8 *)
     o_keys : list ckey;                        (* keys of _stl_prefix_cache *)
     o_ns : list string;                        (* curr_namespace *)
     o_err : bool;                              (* error_occurred *)
-    o_nerrs : Z;                               (* number of messages in all_errors *)
+    o_haserrs : bool;                          (* all_errors is not empty *)
     o_limit : Z;                               (* sys.getrecursionlimit() *)
     o_file : string;                           (* curr_file_short_name *)
-    o_parsed : list (string * list string * Z) (* lex_parse_curr_file calls that reached parser.parse: short name,
-                                                  curr_namespace on entry, limit in force - those of this call
-                                                  and, before them, those recorded in the restored snapshot *)
+    o_parsed : list (string * list string * Z * Z)
+                                               (* lex_parse_curr_file calls that reached parser.parse and returned:
+                                                  short name, curr_namespace on entry, limit in force, content id -
+                                                  those of this call and, before them, those recorded when the
+                                                  restored snapshot was taken *)
   }.
 
   Definition class_of (r : rresult) : Z :=
@@ -484,6 +505,7 @@ Module Replay.
     | R_err (E_parse _ _) => 5
     | R_err (E_raw _) => 6
     | R_err (E_backend _) => 7
+    | R_err (E_not_utf8 _) => 8
     end.
 
   Fixpoint keys_subset (a b : list ckey) : bool :=
@@ -491,15 +513,15 @@ Module Replay.
   Definition keys_same (a b : list ckey) : bool :=
     keys_subset a b && keys_subset b a && Nat.eqb (List.length a) (List.length b).
 
-  Definition tok_view (t : token) : string * list string * Z :=
-    match t with Tok s ns l _ _ => (s, ns, l) end.
-  Definition view_eqb (a b : string * list string * Z) : bool :=
-    let '(s1, n1, l1) := a in let '(s2, n2, l2) := b in
-    String.eqb s1 s2 && list_eqb String.eqb n1 n2 && Z.eqb l1 l2.
+  Definition tok_view (t : token) : string * list string * Z * Z :=
+    match t with Tok s ns l _ c => (s, ns, l, Z.abs c) end.
+  Definition view_eqb (a b : string * list string * Z * Z) : bool :=
+    let '(s1, n1, l1, c1) := a in let '(s2, n2, l2, c2) := b in
+    String.eqb s1 s2 && list_eqb String.eqb n1 n2 && Z.eqb l1 l2 && Z.eqb c1 c2.
 
   (* tokens of the parses that produced the parser state a call ended with: for a successful call they are
      inside the output; for a failed one the campaign compares only what it can see *)
-  Definition parsed_of (r : rresult) : option (list (string * list string * Z)) :=
+  Definition parsed_of (r : rresult) : option (list (string * list string * Z * Z)) :=
     match r with
     | R_ok (_, _, _, _, _, ms, _) => Some (map tok_view (tl ms))
     | _ => None
@@ -513,7 +535,7 @@ Module Replay.
     && keys_same (o_keys o) (map fst (g_cache g'))
     && list_eqb String.eqb (o_ns o) (g_ns g')
     && Bool.eqb (o_err o) (g_err g')
-    && Z.eqb (o_nerrs o) (Z.of_nat (List.length (g_errtxt g')))
+    && Bool.eqb (o_haserrs o) (nonempty (g_errtxt g'))
     && Z.eqb (o_limit o) (g_limit g')
     && String.eqb (o_file o) (file_short g')
     && match parsed_of r with Some l => list_eqb view_eqb l (o_parsed o) | None => true end.
@@ -535,5 +557,17 @@ Module Replay.
     end.
 
   (* the spec on a replayed history: the result of the last call equals the result of that call on g0 *)
-  Definition result_view (r : rresult) : Z * option (list (string * list string * Z)) := (class_of r, parsed_of r).
+  Fixpoint last_result (sh : shape) (g : rgstate) (h : list (rrequest * observed)) : option (rrequest * rresult) :=
+    match h with
+    | [] => None
+    | (rq, _) :: t => let '(g', r) := step sh g rq in
+                      match t with [] => Some (rq, r) | _ => last_result sh g' t end
+    end.
+  (* the last call is the probe: does it end the way it ends from g0?  (the tokens record the limit in force,
+     which real parsing only feels through RecursionError, so only the outcome class is compared) *)
+  Definition spec_on_model (h : list (rrequest * observed)) : bool :=
+    match last_result code_shape g0 h with
+    | None => true
+    | Some (rq, r) => Z.eqb (class_of r) (class_of (snd (step code_shape g0 rq)))
+    end.
 End Replay.
